@@ -8,6 +8,7 @@ import (
 	"net/http/httptest"
 	"os"
 	"path/filepath"
+	"sort"
 	"strings"
 	"time"
 
@@ -34,8 +35,14 @@ func walkPaths(v interface{}, p path, visit func(path)) {
 	visit(p)
 	switch x := v.(type) {
 	case map[string]interface{}:
-		for k, c := range x {
-			walkPaths(c, append(append(path{}, p...), k), visit)
+		// sorted: the mutation matrix must not depend on Go's map iteration order
+		keys := make([]string, 0, len(x))
+		for k := range x {
+			keys = append(keys, k)
+		}
+		sort.Strings(keys)
+		for _, k := range keys {
+			walkPaths(x[k], append(append(path{}, p...), k), visit)
 		}
 	case []interface{}:
 		for i, c := range x {
@@ -259,10 +266,37 @@ func runCrashSuite(seed uint64, n int, out *Out, stats *Stats) {
 		collect("transaction-endpoint", reqBytes)
 		collect("sync-answer", chainBytes)
 		collect("utxos-answer", utxosBytes)
-		per := 60
-		start := (i * per) % len(muts)
-		for k := 0; k < per; k++ {
-			m := muts[(start+k*7919)%len(muts)]
+		// the list fields the code walks later (and their elements) crossed with the faults that leave a
+		// hole in them: a second stream, so that every case tries some of them
+		var prio []mut
+		for _, m := range muts {
+			if len(m.p) == 0 {
+				continue
+			}
+			last := m.p[len(m.p)-1]
+			if _, isIdx := last.(int); isIdx && len(m.p) > 1 {
+				last = m.p[len(m.p)-2]
+			}
+			switch faultKinds[m.fk].name {
+			case "null", "absent", "empty-list", "list-of-null":
+				switch last {
+				case "transactions", "inputs", "outputs", "Transaction":
+					prio = append(prio, m)
+				}
+			}
+		}
+		per, perPrio := 60, 20
+		// where a shard starts in the matrix depends on its seed: shards do not repeat each other
+		base := int(NewRng(seed*977+13).Intn(len(muts)))
+		basePrio := int(NewRng(seed*977+14).Intn(len(prio) + 1))
+		stats.Count(fmt.Sprintf("matrix-size/%d", len(muts)/500*500))
+		for k := 0; k < per+perPrio; k++ {
+			var m mut
+			if k < per || len(prio) == 0 {
+				m = muts[(base+(i*per+k)*7919)%len(muts)]
+			} else {
+				m = prio[(basePrio+(i*perPrio+k-per)*7)%len(prio)]
+			}
 			fk := faultKinds[m.fk]
 			var base []byte
 			switch m.target {
@@ -298,6 +332,11 @@ func runCrashSuite(seed uint64, n int, out *Out, stats *Stats) {
 			stats.Ops++
 			switch m.target {
 			case "transaction-endpoint":
+				if top, ok := tree.(map[string]interface{}); ok {
+					if txo, has := top["Transaction"]; has {
+						emitDecodeCase(c.out, stats, id, fmt.Sprintf("m%d", k), "tx", mustJSON(txo))
+					}
+				}
 				poolBefore := len(v.Pool.Transactions())
 				var herr error
 				c.guard("handler:transaction", what, payload, func() {
@@ -309,6 +348,8 @@ func runCrashSuite(seed uint64, n int, out *Out, stats *Stats) {
 				_ = poolBefore
 				v.Pool.Validate(w.now + set.Interval) // drain
 			case "sync-answer":
+				// the model's decoder judges the same bytes (accept/reject and the re-encoded value)
+				emitDecodeCase(c.out, stats, id, fmt.Sprintf("m%d", k), "blocks", payload)
 				peer := &Peer{Target: "10.3.3.3:10600", Serve: func(uint64) ([]byte, error) { return payload, nil }}
 				before := v.Digest([]string{w.wallets[0].Addr})
 				c.guard("sync", what, payload, func() { helperSync(v, w.now+3*set.Interval, []*Peer{peer}) })
@@ -361,7 +402,7 @@ func runCrashSuite(seed uint64, n int, out *Out, stats *Stats) {
 		}
 		_ = digestBefore
 		stats.Cases++
-		stats.Sample(fmt.Sprintf("%s: %d mutations of a valid request / chain / utxo list (position x fault kind, ids recomputed) + fixed probes", id, per))
+		stats.Sample(fmt.Sprintf("%s: %d mutations of a valid request / chain / utxo list (position x fault kind, ids recomputed) + fixed probes", id, per+perPrio))
 	}
 	_ = os.Remove(cur)
 }
